@@ -222,7 +222,7 @@ func init() {
 		Quick: 64, Thorough: 1600,
 		// the cap is a safety net only: a case costs seconds, but the box may be shared and builds allocate ~80 MB per goroutine and stage
 		CaseCap: 15 * time.Minute,
-		Required: []string{"kind_components", "kind_interleaved", "kind_distinct-namespaces", "kind_overlay", "files_merged", "overlay_path_over_base_points",
+		Required: []string{"kind_components", "kind_interleaved", "kind_distinct-namespaces", "kind_overlay", "files_merged", "merged_in_reverse_order", "overlay_path_over_base_points",
 			"overlay_path_resolves_base_point", "namespace_in_two_files", "search_spans_files", "search_interleaves_files", "distinct_namespace_tables"},
 		Run: func(c *core.Ctx) {
 			r := c.R
@@ -327,6 +327,7 @@ func init() {
 
 			// build and merge
 			merged := compact.NewWorld()
+			var datas [][]byte
 			for i, f := range files {
 				var data []byte
 				var err error
@@ -341,6 +342,7 @@ func init() {
 					}
 					if err == nil {
 						err = merged.Merge(data)
+						datas = append(datas, data)
 					}
 				})
 				if p {
@@ -367,6 +369,27 @@ func init() {
 			}
 			for _, d := range model.Conform(merged, absent, queries, true) {
 				c.Violate("merged:"+d.Class+":"+kind, witness, "merged world: %s", d.Detail)
+			}
+			// the same files loaded in the opposite order (files of a directory are loaded concurrently, so any
+			// order occurs): a file that only mentions a point may come before the file that stores it
+			if len(datas) >= 2 {
+				reversed := compact.NewWorld()
+				var rerr error
+				p, cl, fr, st := core.Protect(func() {
+					for i := len(datas) - 1; i >= 0 && rerr == nil; i-- {
+						rerr = reversed.Merge(datas[i])
+					}
+				})
+				if p {
+					c.Violate("reversed-merge:panic@"+fr+":"+kind, map[string]any{"kind": kind, "files": c17Render(files), "stack": st}, "merging the files in reverse order panicked: %s", cl)
+				} else if rerr != nil {
+					c.Violate("reversed-merge:error:"+kind, witness, "merging the files in reverse order failed: %v", rerr)
+				} else {
+					c.Count("merged_in_reverse_order")
+					for _, d := range model.Conform(reversed, absent, queries, true) {
+						c.Violate("reversed-merge:"+d.Class+":"+kind, witness, "world merged in reverse file order: %s", d.Detail)
+					}
+				}
 			}
 			// what the searches did across files
 			spans, interleaves := false, false
